@@ -154,3 +154,14 @@ Proof.
   - intros (l & P & Hh & Ho). exists (u, l). split; [eapply proves_candidate; eauto|]. cbn [fst snd].
     rewrite N.eqb_refl. simpl. apply gate_conclusion_iff. auto.
 Qed.
+
+(* the login route: the boolean evaluated on an observed Set-Cookie is the specification [login_spec] *)
+Lemma login_conclusion_iff lq u l : login_conclusion lq u l = true <-> login_spec lq u l.
+Proof.
+  unfold login_conclusion, login_spec. split.
+  - intros H. apply andb_true_iff in H. destruct H as [Hl Hc]. apply N.eqb_eq in Hl.
+    destruct (login_credential lq) as [b|]; [|discriminate].
+    apply andb_true_iff in Hc. destruct Hc as [Hok Hu]. apply N.eqb_eq in Hu.
+    split; [exact Hl|]. exists b. auto.
+  - intros (Hl & b & Hc & Hok & Hu). rewrite Hc, Hok. subst u l. rewrite !N.eqb_refl. reflexivity.
+Qed.
